@@ -15,7 +15,7 @@ import cgroup
 from cprop import CompilerProp
 
 ID = "C02"
-LEAN_MODULES = ["FaxVerif.C02.Theorems"]
+LEAN_MODULES = ["FaxVerif.C02.Theorems", "FaxVerif.C02.TheoremsCursor"]
 LEAN_SOURCES = ["FaxVerif/C02", "FaxVerif/Cpp"]
 DRIVER = cgroup.DRIVER
 SETUP_MODULES = cgroup.DRIVER_IMPORTS  # what the driver imports
@@ -25,15 +25,25 @@ THEOREMS = [
     "FaxVerif.C02.block_scoped",
     "FaxVerif.C02.declared_once",
     "FaxVerif.Cpp.exec_sound",
-]
+] + ["FaxVerif.C02." + t for t in (
+    "starts_with_is_prefix starts_with_stack starts_with_top starts_with_refl starts_with_trans starts_with_antisymm "
+    "deepest_scope_spec deepest_scope_incomparable deepest_scope_equal up_is_dropLast up_one up_other nothing_lost added_last "
+    "insertion_order emit_block_shape emit_shape declared_encloses declared_encloses_block save_set_identity save_set_roundtrip "
+    "cursor_chain cursor_root cursor_path_counterexample cursor_path_partial includes_first_use_order includes_nodup_mem").split()]
 RULE = (
     "type-directed random queries over the synthetic data model (see C05) on the three backends; per case: file set, mode bits, "
     "template residue, parse of class declarations and booking lines, the verified checkers WellFormed and UniqueNames on the "
-    "parsed per-event body. Non-trivial: >=2 distinct operators and >=1 event with a row; distinct = distinct (backend, query)."
+    "parsed per-event body. Non-trivial: >=2 distinct operators and >=1 event with a row; distinct = distinct (backend, query). "
+    "Stream 'cursor': random sequences of calls of the code-generation cursor (generated_code / gc_scope / statement classes: add "
+    "statement or block, below=, pop, save / set scope token, scope[-k], declare at cursor or token, includes, libraries, "
+    "starts_with, deepest_scope; a share of erroneous calls) on the real classes vs the Lean state machine: every return value / "
+    "exception class, the emitted text (exact), cursor and token identities; plus the text oracles nothing_lost and "
+    "declared_encloses on the REAL text."
 )
 TRUSTED_BASE = [
     "C++ scoping/initialisation rules as modelled by lean/FaxVerif/Cpp/Check.lean (flat environment + scoped analysis state)",
     "tools/cparse.py; the typing of member calls against the declared EDM is checked by g++ in the thorough tier only",
+    "cursor state machine (lean/FaxVerif/C02/CursorModel.lean): hand model of generated_code.py, util_scope.py, statement.py tied by tools/c02_cursor.py (operation sequences on the real classes vs the model, exact text); that the translator only ever uses the cursor through these calls is by reading",
 ]
 ASSUMPTIONS = ["the experiment headers declare what the metadata says (the mock EDM is generated from the same declarations)"]
 LEVEL_TEXT = (
@@ -41,7 +51,12 @@ LEVEL_TEXT = (
     "uninitialised name, assign to an undeclared one or fill from an unset column, for all events and number models; the "
     "checker, the uniqueness check and the completeness checks run on the implementation's real output for every generated "
     "query on the three backends. Template completeness (no directive left) rests on C14's render theorems over the templates "
-    "regenerated from source."
+    "regenerated from source. Scoping discipline of the generator itself: a faithful state-machine model of the translator's "
+    "code-generation cursor (block tree, cursor stack, scope tokens) with theorems for EVERY sequence of cursor calls: starts_with is "
+    "the prefix order, deepest_scope / scope[-k] as specified, no statement is ever lost and insertion order is kept (nothing_lost, "
+    "insertion_order), the emitted text has the block shape (emit_shape), and a variable declared at a scope token lies, in the "
+    "emitted text, in a block that lexically encloses and precedes every statement added while the cursor's scope starts with that "
+    "token (declared_encloses) — tied to the real classes by differential execution of operation sequences on every run."
 )
 LEVEL_NOTE = (
     "Proved: soundness of WellFormed w.r.t. the modelled semantics. Sampled: that every accepted query's output passes the checker. "
@@ -111,4 +126,22 @@ def after(ctx, c):
 
 
 _P = CompilerProp(ID, gen, judge, 180, 1500, with_query=True, after=after, use_gxx=True, gxx_also=lambda c: not (c.answer or {}).get("wf", True) or not (c.answer or {}).get("unique", True))
-run, search, replay = _P.run, _P.search, _P.replay
+search = _P.search
+
+
+def run(ctx):
+    _P.run(ctx)
+    import c02_cursor
+
+    c02_cursor.run_stream(ctx, 400 if ctx.tier == "quick" else 4000, report=True)
+
+
+def replay(ctx, rep):
+    case = rep.get("case") or {}
+    if "cursor_ops" in case:
+        import c02_cursor
+
+        print(c02_cursor.replay(case["cursor_ops"]))
+        r = c02_cursor.run_stream(ctx, 0, extra=[case["cursor_ops"]])
+        return 1 if (r["disagreements"] or r["violations"]) else 0
+    return _P.replay(ctx, rep)
